@@ -82,4 +82,38 @@ def run(ctx):
     r = worldrun.run_stream("C08", "backup_faults", variants, model_ok, level=2, oracle=oracle, do_shrink=False,
                             triggers=faultgen.history_triggers(r0), nontrivial=lambda c, a: True,
                             desc="for every generated history and every mutating operation in it: one run per primitive call the operation issues on the backup filesystem (%s), that call failing with EIO; traces compared with the model; oracle: the operation returns an error, the base tree is unchanged by it, the later Rollback restores the base (C01 oracle) and every original is recoverable (C02 oracle)" % ("a sample of %d per history" % per if per < 10 ** 6 else "exhaustively, plus sampled double faults"))
-    return {"streams": [r0["stream"], r]}
+    return {"streams": [r0["stream"], r, forcebackup_failures(tier, seed, model_ok)]}
+
+
+def force_oracle(case, a):
+    """a ForceBackup that fails (its backup could not be taken) must not corrupt the transaction"""
+    fi = case.meta["force_index"]
+    st = a["R"].get(fi)
+    if st is None or st[0] == "ok" or case.ops[-1][0] != "rollback":
+        return None
+    ri = len(case.ops) - 1
+    if a["R"].get(ri, ("",))[0] != "ok":
+        return "after a failed ForceBackup (%s) Rollback returns %s" % (st[0], a["R"].get(ri))
+    wp = case.meta["wp"]
+    strip = worldrun.strip_for_c01
+    snap = {bfsprops.fields(l)["path"]: strip(l) for l in worldrun.region(a["S"].get(str(fi + 1), []), case.cfg, "base")}
+    init = {bfsprops.fields(l)["path"]: strip(l) for l in worldrun.region(a["S"].get("0", []), case.cfg, "base")}
+    final = {bfsprops.fields(l)["path"]: strip(l) for l in worldrun.region(a["S"].get("final", []), case.cfg, "base")}
+    for p in set(init) | set(final):
+        if p == wp or p.startswith(wp + b"/"):
+            if final.get(p) not in (init.get(p), snap.get(p)):
+                return "after a failed ForceBackup %s is neither as initially nor as at the ForceBackup moment" % enc(p)
+        elif init.get(p) != final.get(p):
+            return "after a failed ForceBackup(%s) path %s is not rolled back: %s vs initially %s" % (enc(wp), enc(p), final.get(p), init.get(p))
+    return None
+
+
+def forcebackup_failures(tier, seed, model_ok):
+    import importlib
+    c17 = importlib.import_module("props.c17")
+    rnd = random.Random(seed + 17)
+    cases = c17.gen_cases(tier, rnd, 200 if tier == "quick" else 3000)
+    return worldrun.run_stream("C08", "forcebackup_failures", cases, model_ok, level=1, oracle=force_oracle,
+                               nontrivial=lambda c, a: a["R"].get(c.meta["force_index"], ("ok",))[0] != "ok",
+                               desc="histories with a ForceBackup (the C17 generator, incl. ForceBackup below a directory created in the same transaction): whenever the ForceBackup itself fails - its backup could not be taken - the later Rollback must return nil and restore every other path (C08, second sentence); non-trivial = the ForceBackup failed")
+
